@@ -118,7 +118,10 @@ func c15Run(t *testing.T, s *sim.Scn) *sim.Outcome {
 				}
 				key := fmt.Sprintf("k%d", kn)
 				if op.C%7 == 3 {
-					key = "finalized/height" // an application key that looks like bookkeeping but is not reserved
+					// application keys that look like bookkeeping but are not reserved: next to, below and above the
+					// reserved ones
+					key = []string{"finalized/height", "genesis/time", "genesis", "genesis/initialized/x", "finalizedHeight/x", "genesis/staterootx"}[(int(op.B)+j)%6]
+					o.Count("near-reserved-keys", 1)
 				}
 				if op.C%2 == 1 {
 					// other spellings of the same key: the datastore normalises paths, the executor trims blanks
